@@ -55,6 +55,20 @@ def run(c):
                        sample=ev if t in (3, 200) and not payload else None)
         batch[role].append({"events": events})
         p.close()
+        # sequence numbers at the top of the 32-bit range (the reply must carry them as a plain uint32) and across the wrap
+        p = tr.Probe(role, "authed")
+        for base in (0x7FFFFFFE, 0xFEFFFFFE, 0xFFFFFFFC):
+            p.set_seqno(base)
+            for t in rnd.sample([t for t in range(256) if not p.live_handled(t)], 5):
+                if not p.alive():
+                    p.close()
+                    p = tr.Probe(role, "authed")
+                    p.set_seqno(base)
+                ev = p.send(t, b"")
+                events_hi = batch[role][-1]["events"]
+                events_hi.append(ev)
+                c.case(key=(role, "seq>=%x" % base, t), sample=ev if base == 0xFEFFFFFE and t % 2 == 0 else None)
+        p.close()
         # the same while the victim's own re-exchange is under way (its KEXINIT is out, the peer's has not arrived)
         unh = [t for t in range(256) if t not in (1, 2, 4)]
         rnd.shuffle(unh)
